@@ -573,7 +573,10 @@ class DifferenceMonitor(Monitor):
 
         def _default_map(final, initial, op=(op_ if op_ else lambda f, i: f - i)):
             return tuple(
-                op(fv, iv)
+                op(
+                    torch.zeros_like(iv) if fv is None else fv,
+                    torch.zeros_like(fv) if iv is None else iv,
+                )
                 for fv, iv in zip(
                     final if isinstance(final, tuple) else (final,),
                     initial if isinstance(initial, tuple) else (initial,),
